@@ -348,7 +348,7 @@ func cmdCheck(args []string) int {
 		params := hs.Quick
 		tmo := hs.TimeoutQ
 		if tmo == 0 {
-			tmo = 240
+			tmo = 420
 		}
 		if tier == "thorough" {
 			params = map[string]int{}
